@@ -475,7 +475,63 @@ def exec_taken(ctx, case):
                               case['profile'], missing, case['listed']), case)
 
 
+def exec_strayname(ctx, case):
+    """A package directory holds a file that merely has a compressed Manifest name
+    (text, not a compressed stream, listed nowhere): the profile still puts a
+    Manifest into that directory (and every other one it names), and the result
+    verifies."""
+    from gemato import cli as gcli
+    with common.Scratch('vf-c19n-') as d:
+        root = os.path.join(d, 'repo')
+        files = {'cat/pkg/p-1.ebuild': b'EAPI=8\n', 'cat/pkg/metadata.xml': b'<x/>\n',
+                 'cat/pkg/' + case['name']: b'this is not a compressed Manifest\n',
+                 'cat/zpkg/z-1.ebuild': b'EAPI=8\n', 'profiles/repo_name': b'r\n'}
+        for pth, data in files.items():
+            os.makedirs(os.path.dirname(os.path.join(root, pth)), exist_ok=True)
+            with open(os.path.join(root, pth), 'wb') as f:
+                f.write(data)
+        ctx.case(sig=('strayname', case['name'], case['profile'], case['cmd']),
+                 case=case, klass='strayname')
+        ctx.count('stray_manifest_name_cases')
+        try:
+            with walkperm.WalkPermuter(case['wseed']):
+                rc = gcli.main(['gemato', 'create', '-p', case['profile'], '--hashes',
+                                'SHA256', root])
+                if rc == 0 and case['cmd'] == 'update':
+                    with open(os.path.join(root, 'cat/pkg/p-1.ebuild'), 'ab') as f:
+                        f.write(b'# edited\n')
+                    rc = gcli.main(['gemato', 'update', '-p', case['profile'],
+                                    '--hashes', 'SHA256', root])
+        except SystemExit:
+            rc = 'exit'
+        except Exception as exc:
+            rc = exc
+        if rc != 0:
+            ctx.count('create_failed:strayname')
+            return
+        have = set(in_use_dirs(root))
+        want = {'cat', 'cat/pkg', 'cat/zpkg', 'profiles'}
+        missing = sorted(want - have)
+        if missing:
+            ctx.violation('manifest-missing-in:' + kind_of_dir(missing[0]),
+                          'after %s -p %s no Manifest in %r (cat/pkg holds a text file '
+                          'called %s)' % (case['cmd'], case['profile'], missing,
+                                          case['name']), case)
+            return
+        fk, fv = c03.fresh_verify(root, '')
+        if fk == 'exc' or fv is not True:
+            ctx.violation('does-not-verify:stray-manifest-name', 'the tree written by '
+                          '%s -p %s does not verify: %r' % (case['cmd'], case['profile'],
+                                                            fv), case)
+
+
 def run_taken(u, ctx):
+    for name in ('Manifest.gz', 'Manifest.xz', 'Manifest.bz2'):
+        for profile in ('ebuild', 'old-ebuild'):
+            for cmd in ('create', 'update'):
+                exec_strayname(ctx, {'kind': 'strayname', 'name': name,
+                                     'profile': profile, 'cmd': cmd,
+                                     'wseed': len(name) + len(profile)})
     for listed in ('data', 'misc'):
         for profile in ('ebuild', 'old-ebuild'):
             for wseed in range(6):
@@ -521,6 +577,8 @@ def run_unit(u, ctx):
 
 
 def replay(case, ctx):
+    if case.get('kind') == 'strayname':
+        return exec_strayname(ctx, case)
     if case.get('kind') == 'taken':
         return exec_taken(ctx, case)
     with common.Scratch('vf-c19-') as d:
